@@ -793,6 +793,24 @@ class StrLang:
                         s3.order[i:i + 1] = ids
                         del s3.cons[sid]
                         out.append((("some", ("tuple", [("str", ids[0]), ("str", ids[2])])), s3))
+                elif m == "trim_start_matches":
+                    # X = H R with H in P* (as many as there are) and R not starting in P
+                    P = self.charset(e["args"][0], env)
+                    before = s.cons[sid]
+                    C = set(a for a in self.alpha if before.accepts(a))
+                    if not before.product(DFA.cls_star(self.alpha, C), "xor").is_empty():
+                        raise Undecided("trim_start_matches of a segment whose constraint is not a character-class star")
+                    s3 = s.copy()
+                    self.nseg += 1
+                    hid = self.nseg
+                    self.nseg += 1
+                    rid = self.nseg
+                    s3.cons[hid] = DFA.cls_star(self.alpha, C & P)
+                    s3.cons[rid] = DFA.epsilon(self.alpha).union(DFA.cls(self.alpha, C - P).concat(DFA.cls_star(self.alpha, C)))
+                    i = s3.order.index(sid)
+                    s3.order[i:i + 1] = [hid, rid]
+                    del s3.cons[sid]
+                    out.append((("str", rid), s3))
                 else:
                     raise Undecided("string method %s" % m)
             elif recv[0] in ("some", "none"):
